@@ -76,6 +76,8 @@ def ws_formula(k: int, w0: str, w1: str, w2: str, w3: str) -> bool:
             return repr(Formula.from_spec(x, parser=DefaultFormulaParser(feature_flags={"all"})))
         except FormulaSyntaxError:
             return "<syntax error>"
+        except Exception as e:
+            return f"<{type(e).__name__} for {x!r}>"
 
     # whitespace between two adjacent word-like tokens cannot be removed; every other site may hold any whitespace or none
     for a, b, w in ((t[0], t[1], w0), (t[1], t[2], w1), (t[2], t[3], w2), (t[3], t[4], w3)):
@@ -181,11 +183,11 @@ def spans(s: str) -> bool:
 
 FRAGMENTS = [
     ("f(a,b)", ["f( a , b )", "f(a,  b)", "f(a ,b)"]),
-    ("{a+b}", ["{ a + b }", "{a +b}", "{a+ b}"]),
+    ("{a+b}", ["{ a + b }", "{ a+b}", "{a+ b }"]),
     ("f('x')", ['f("x")', "f( 'x' )"]),
     ("g(a)[0]", ["g( a )[ 0 ]", "g(a)[0 ]"]),
     ("f(a, k=1)", ["f(a,k=1)", "f(a, k = 1)"]),
-    ("{a**2}", ["{a ** 2}", "{ a**2 }"]),
+    ("{a**2}", ["{a ** 2}", "{ a**2 }", "{\ta**2}"]),
     ("np.log(a)", ["np.log( a )", "np.log(a )"]),
     ("f(`a b`)", ["f( `a b` )", "f(`a b` )"]),
     ("I(a*2)", ["I(a * 2)", "I( a*2 )"]),
@@ -205,13 +207,16 @@ def pynorm(i: int, j: int, ctx: int) -> bool:
     if j >= len(variants):
         return True
     wrap = ["{}", "b + {}:c", "y ~ {} - 1"][ctx]
-    fa = Formula.from_spec(wrap.format(base))
-    fb = Formula.from_spec(wrap.format(variants[j]))
-    if repr(fa) != repr(fb):
+    try:
+        fa = Formula.from_spec(wrap.format(base))
+        fb = Formula.from_spec(wrap.format(variants[j]))
+        if repr(fa) != repr(fb):
+            return False
+        # set semantics recognise the two spellings as the same factor
+        both = Formula.from_spec("{} + {}".format(base, variants[j]))
+        return len(list(both)) == 2  # intercept + one term
+    except Exception:
         return False
-    # set semantics recognise the two spellings as the same factor
-    both = Formula.from_spec("{} + {}".format(base, variants[j]))
-    return len(list(both)) == 2  # intercept + one term
 
 
 def explain(fname, call):
